@@ -141,6 +141,9 @@ class Scanner:
         def verb_err():
             return self.error_token('bad \\verb argument', latex, start)
         start_arg = start + len('\\verb')
+        if start_arg < self.max_pos and latex[start_arg] == '*':
+            # starred form \verb*|...|: same text
+            start_arg += 1
         if start_arg >= self.max_pos:
             return verb_err()
         end_arg = latex[start_arg] + '\n'
